@@ -7,7 +7,7 @@ set -u
 NAME="$1"; WT="$2"; shift 2
 DEST=/verif/seeded/$NAME; mkdir -p "$DEST"
 COPY="$WT.verif"
-rsync -a --delete --exclude target --exclude out --exclude .git --exclude seeded /verif/ "$COPY/"
+rsync -a --delete --exclude target --exclude out --exclude .git --exclude seeded "${VERIF_SRC:-/verif}/" "$COPY/"
 sed -i "s#\"/repo/#\"$WT/#" "$COPY/harness/Cargo.toml" "$COPY/harness/fuzz/Cargo.toml"
 cd "$COPY" || exit 2
 RES=""
